@@ -190,7 +190,7 @@ theorem stmts_stop_at_return (evalOne : Stmt → M ν Addr) (last : Option Addr)
 /-- 输出 e: evaluates `e` and stores the value in the return slot of the frame on top -/
 theorem ret_sets_slot (n ln : Nat) (e : Expr) (s s1 : VM ν) (fr fr1 : Frame) (rest rest1 : List Frame) (v : Addr)
     (hs : s.stack = fr :: rest)
-    (he : evalExpr n e { s with stack := { fr with line := ln } :: rest } = (.ok v, s1))
+    (he : evalExpr n e { s with stack := { fr with line := ln, started := true } :: rest } = (.ok v, s1))
     (hs1 : s1.stack = fr1 :: rest1) :
     evalStmt (n+1) (.ret ln e) s = (.ok v, { s1 with stack := { fr1 with ret := some v } :: rest1 }) := by
   simp only [evalStmt, Stmt.line]
